@@ -16,6 +16,7 @@ TReset ==
     /\ IsEvent("reset")
     /\ now' = 0 /\ phase' = "connecting" /\ since' = 0 /\ deadline' = NEVER /\ await' = FALSE /\ due' = NEVER
     /\ stall' = E.stall /\ ping' = FALSE /\ failed' = FALSE /\ lastPing' = 0 /\ lateReply' = FALSE /\ silentFrom' = NEVER
+    /\ nconn' = 1
 
 TConnected == IsEvent("connected") /\ E.ok /\ E.elapsed_ms = 0 /\ Connected
 
@@ -26,8 +27,10 @@ TStalled ==
     /\ E.exact /\ E.elapsed = ConnTimeout /\ E.err \in {"NetworkTimeout", "Timeout"}
     /\ phase = "connecting" /\ stall
     /\ now' = now + ConnTimeout /\ phase' = "timedout" /\ failed' = TRUE
-    /\ UNCHANGED <<since, deadline, await, due, stall, ping, lastPing, lateReply, silentFrom>>
+    /\ UNCHANGED <<since, deadline, await, due, stall, ping, lastPing, lateReply, silentFrom, nconn>>
 TickN(n) == TRUE
+
+TReconnect == IsEvent("reconnect") /\ Reconnect
 
 TTick ==
     /\ IsEvent("tick")
@@ -38,7 +41,7 @@ TTick ==
     /\ failed' = (E.fail # "none")
     /\ (E.fail # "none") => E.fail = "AwaitPingResp"
 
-TraceNext == TReset \/ TConnected \/ TStalled \/ TTick
+TraceNext == TReset \/ TConnected \/ TStalled \/ TTick \/ TReconnect
 TraceSpec == TraceInit /\ [][TraceNext]_tvars
 
 Progress == TLCSet(1, IF TLCGet(1) < l THEN l ELSE TLCGet(1))
